@@ -355,6 +355,8 @@ func (t *Terminfo) TParm(s string, p ...interface{}) string {
 		// the machine works on int; a number held in another integer
 		// type is that number, not zero
 		switch rv := reflect.ValueOf(p[i]); rv.Kind() {
+		case reflect.String:
+			params[i] = rv.String() // (also for named string types)
 		case reflect.Int8, reflect.Int16, reflect.Int32, reflect.Int64, reflect.Int:
 			params[i] = int(rv.Int())
 		case reflect.Uint8, reflect.Uint16, reflect.Uint32, reflect.Uint64, reflect.Uint:
@@ -419,9 +421,13 @@ func (t *Terminfo) TParm(s string, p ...interface{}) string {
 		case 'i': // increment both parameters (ANSI cup support)
 			if i, ok := params[0].(int); ok {
 				params[0] = i + 1
+			} else if params[0] == nil {
+				params[0] = 1 // a parameter that was not given is the number 0
 			}
 			if i, ok := params[1].(int); ok {
 				params[1] = i + 1
+			} else if params[1] == nil {
+				params[1] = 1
 			}
 
 		case 's':
